@@ -120,6 +120,26 @@ Job(c) ==
                   steps |-> <<[op |-> "create", h |-> 1, wb |-> Doc(c), default_seed |-> TRUE]>> \o [i \in 1..Len(ProbesKm) |-> RowQuery(c, i)]],
    wb |-> Doc(c)]
 
+(***************************************************************************)
+(* Malformed rows.  A row must have dim + 1 fields and every field must be *)
+(* a number from its first to its last character.  Prop: a file with such  *)
+(* a row is reported (the run fails and names the row or the field), never *)
+(* answered as if the field had been some other number.  bad = the field   *)
+(* the report has to name ("" for a wrong field count: the line is named). *)
+(***************************************************************************)
+Malformed ==
+  << [dim |-> 2, fields |-> <<"1", "2">>, bad |-> ""], [dim |-> 2, fields |-> <<"1", "2", "3", "4">>, bad |-> ""],
+     [dim |-> 3, fields |-> <<"1", "2", "3">>, bad |-> ""], [dim |-> 3, fields |-> <<"1", "2", "3", "4", "5">>, bad |-> ""],
+     [dim |-> 3, fields |-> <<"5.0d5", "50e3", "900e3", "100e3">>, bad |-> "5.0d5"],        \* Fortran exponent
+     [dim |-> 3, fields |-> <<"5.0e5", "50e3", "900e3", "3e2km">>, bad |-> "3e2km"],        \* a unit glued to the depth
+     [dim |-> 3, fields |-> <<"100e3", "12abc", "900e3", "100e3">>, bad |-> "12abc"],
+     [dim |-> 3, fields |-> <<"100e3", "50e3", "1.5.2", "100e3">>, bad |-> "1.5.2"],
+     [dim |-> 2, fields |-> <<"100e3", "900e3", "7;">>, bad |-> "7;"],
+     [dim |-> 2, fields |-> <<"1e3x", "900e3", "100e3">>, bad |-> "1e3x"],
+     [dim |-> 2, fields |-> <<"abc", "900e3", "100e3">>, bad |-> "abc"],
+     [dim |-> 3, fields |-> <<"100e3", "50e3", "900e3", "--5">>, bad |-> "--5"] >>
+EmitMalformed == PrintT(<<"X", ToJson(Malformed)>>)
+
 VARIABLE cfg
 Init == cfg \in Configs
 Next == UNCHANGED cfg
